@@ -74,12 +74,19 @@ MUTANTS = [
     ("C11", "rebind-user-namespace(F4)", GI + "checker/func_checker.py",
      "            globals = nested_globals\n",
      "            globals.f_locals[func_def.name] = GuppyDefinition(func)\n"),
-    ("C11", "insert-return-vars-unguarded", GI + "compiler/cfg_compiler.py",
-     "    if all(\n        not is_return_var(v.name)\n        for v in cfg.exit_bb.sig.input_row\n        if isinstance(v, Variable)\n    ):\n        insert_return_vars(cfg)\n",
-     "    insert_return_vars(cfg)\n"),
-    ("C11", "worklist-survives-failed-check", GI + "engine.py",
+    # (two candidates from the design were dropped as *equivalent* for C11 on this engine:
+    #  removing the insert-return-vars guard and keeping to_check_worklist across reset()
+    #  change nothing a history can observe, because check() re-checks from scratch and
+    #  overwrites that worklist; the first one is a program-level defect (C13), not C11)
+    ("C11", "type-worklist-survives-failed-check", GI + "engine.py",
      "        self.to_check_worklist = {}\n        self.types_to_check_worklist = {}\n",
-     "        self.to_check_worklist = getattr(self, 'to_check_worklist', {})\n        self.types_to_check_worklist = {}\n"),
+     "        self.to_check_worklist = {}\n        self.types_to_check_worklist = getattr(self, 'types_to_check_worklist', {})\n"),
+    ("C11", "parsed-cache-survives-check", GI + "engine.py",
+     "        self.parsed = {}\n        self.checked = {}\n",
+     "        self.parsed = getattr(self, 'parsed', {})\n        self.checked = {}\n"),
+    ("C11", "struct-methods-registered-once", GI + "engine.py",
+     "            for method_def in defn.generated_methods():\n                DEF_STORE.register_def(method_def, None)\n",
+     "            for method_def in defn.generated_methods():\n                if method_def.name in DEF_STORE.impls[defn.id]:\n                    continue\n                DEF_STORE.register_def(method_def, None)\n"),
     # ------------------------------------------------------------------ C23
     ("C23", "no-finally", GI + "tracing/builtins_mock.py",
      "    try:\n        yield\n    finally:\n", "    yield\n    if True:\n"),
@@ -137,7 +144,7 @@ def apply(root: str, m) -> bool:
         j = s.index("EXPERIMENTAL_FEATURES_ENABLED = self.original", i)
         s = s[:j] + "EXPERIMENTAL_FEATURES_ENABLED = True" + s[j + len("EXPERIMENTAL_FEATURES_ENABLED = self.original"):]
     else:
-        if s.count(old) != 1:
+        if s.count(old) != 1 and name != "worklist-is-a-set(F3)":
             print(f"  !! pattern of {prop}/{name} matches {s.count(old)} times", file=sys.stderr)
             return False
         s = s.replace(old, new)
